@@ -1,3 +1,173 @@
-/-! # C06 — placeholder while the model is being written (no theorems yet) -/
+import Capella.Lemmas.Frag
+
+/-!
+# C06 — a fragmented model behaves exactly like its single-file equivalent
+
+Property theorems only; the model is `Capella/Model/Frag.lean`, helper lemmas are in
+`Capella/Lemmas/Frag.lean`.
+
+`t` is the monolithic tree, `cut` an arbitrary set of keys (nested cuts allowed, the root stays),
+`split cut t` the store Capella's fragmentation writes (main file + one file per cut element, `href`
+placeholders, tag-typed fragment roots), `mono t = split (fun _ => false) t` the single file.
+`KeysNodup t`: element keys are unique (ids are unique — C04). The navigation functions are the
+loader's code as modelled (id lookup over all files, placeholder following, upward navigation through
+the placeholder that links to a file root).
+-/
 namespace Capella.Props.C06
+open Capella.Frag
+
+/-- Fragmentation neither loses nor duplicates an element: the elements of all files together are
+exactly the elements of the tree. -/
+theorem split_preserves_elements (cut : Key → Bool) (t : Tree) :
+    ((split cut t).keys).Perm (keysT t) :=
+  split_keys_perm cut t
+
+/-- Every id of the tree resolves in the fragmented store, to an element with the same key and
+type whose children are the (split) children of the monolithic node. -/
+theorem resolve_refines (cut : Key → Bool) (t : Tree) (h : KeysNodup t) (c : Tree) (hc : c ∈ subT t) :
+    ∃ n, resolve (split cut t) c.key = some n ∧ n.kids = (splitL cut c.kids).1 ∧
+      (obsF n).2 = (c.key, c.xt) :=
+  resolve_split cut t h c hc
+
+/-- `iterchildren_xt` answers the same on every layout: the node's children in order, filtered by
+type, fragment roots included in place of their placeholders. -/
+theorem children_refine (cut : Key → Bool) (t : Tree) (h : KeysNodup t) (xts : List (Option Str))
+    (c : Tree) (hc : c ∈ subT t) :
+    childrenXt (split cut t) xts c.key = childrenXt (mono t) xts c.key ∧
+    childrenXt (split cut t) xts c.key =
+      some ((c.kids.filter (fun d => inSet xts d.xt)).map (fun d => (d.key, d.xt))) := by
+  have h1 := childrenXt_split cut t h xts c hc
+  have h2 := childrenXt_split (fun _ => false) t h xts c hc
+  exact ⟨by rw [h1]; exact h2.symm, h1⟩
+
+/-- `iterdescendants` (with any tag filter) answers the same on every layout: all descendants in
+document order, each fragment root in place of its placeholder and observed under the placeholder's
+tag. Holds for every fuel above `fuelT t`. -/
+theorem descendants_refine (cut : Key → Bool) (t : Tree) (h : KeysNodup t) (tags : List Str)
+    (c : Tree) (hc : c ∈ subT t) (f : Nat) (hf : fuelT t ≤ f) :
+    descendants (split cut t) f tags c.key = descendants (mono t) f tags c.key ∧
+    descendants (split cut t) f tags c.key = some ((mdescL c.kids).filter (fun o => inSet tags o.1)) := by
+  have h1 := descendants_split cut t h tags c hc f hf
+  have h2 := descendants_split (fun _ => false) t h tags c hc f hf
+  exact ⟨by rw [h1]; exact h2.symm, h1⟩
+
+/-- `iterdescendants_xt` (filter by `xsi:type`) likewise. -/
+theorem descendantsXt_refine (cut : Key → Bool) (t : Tree) (h : KeysNodup t) (xts : List (Option Str))
+    (c : Tree) (hc : c ∈ subT t) (f : Nat) (hf : fuelT t ≤ f) :
+    descendantsXt (split cut t) f xts c.key = descendantsXt (mono t) f xts c.key := by
+  unfold descendantsXt
+  rw [(descendants_refine cut t h [] c hc f hf).1]
+
+/-- One upward step (`getparent()`, or across a fragment boundary the parent of the placeholder)
+is exactly one containment edge of the monolithic tree — in particular a fragment root is not
+orphaned. -/
+theorem parent_is_edge (cut : Key → Bool) (t : Tree) (h : KeysNodup t) (k p : Key) :
+    fparent (split cut t) k = some p ↔ (p, k) ∈ edgesT t :=
+  fparent_split_iff cut t h k p
+
+/-- The parent of every element is the same on every layout. -/
+theorem parent_refine (cut : Key → Bool) (t : Tree) (h : KeysNodup t) (k : Key) :
+    fparent (split cut t) k = fparent (mono t) k :=
+  fparent_split_eq cut _ t h k
+
+/-- `iterancestors` (unfiltered, as `.parent`, `.layer` and `search(below=…)` use it) is the same on
+every layout, for every fuel. -/
+theorem ancestors_refine (cut : Key → Bool) (t : Tree) (h : KeysNodup t) (f : Nat) (k : Key) :
+    ancestors (split cut t) f k = ancestors (mono t) f k :=
+  ancestors_split_eq cut _ t h f k
+
+/-- `search(*xtypes, below=b)` finds the same elements on every layout (as a multiset: the result
+order follows the files). -/
+theorem searchBelow_refine (cut : Key → Bool) (t : Tree) (h : KeysNodup t) (f : Nat)
+    (xts : List (Option Str)) (b : Key) :
+    (searchBelow (split cut t) f xts b).Perm (searchBelow (mono t) f xts b) :=
+  searchBelow_split_perm cut _ t h f xts b
+
+/-- `find_fragment` names the file that owns the element: the file rooted at its nearest cut
+ancestor-or-self, the main file if there is none. Since a save writes the files of the store, every
+element is written into the fragment that owns it. -/
+theorem findFragment_owner (cut : Key → Bool) (t : Tree) (h : KeysNodup t) (k o : Key)
+    (ho : (k, o) ∈ owners cut t) : fileOf (split cut t) k = some o :=
+  fileOf_split cut t h k o ho
+
+/-- every element has exactly one owner entry -/
+theorem owners_cover (cut : Key → Bool) (t : Tree) : (owners cut t).map Prod.fst = keysT t :=
+  owners_fst cut t
+
+/-! ## What does *not* hold: reading children without following placeholders
+
+`LinkAccessor.__find_refs` and `SpecificationAccessor.__get__` read `element.iterchildren(tag)`
+directly. (Known finding `api|relation-differs|LinkAccessor|…`, `…|SpecificationAccessor|…`.) -/
+
+/-- the full statement for raw child reads -/
+def rawChildren_full : Prop :=
+  ∀ (cut : Key → Bool) (t : Tree), KeysNodup t → ∀ c ∈ subT t,
+    rawChildren (split cut t) c.key = rawChildren (mono t) c.key
+
+def witnessTree : Tree :=
+  .node 0 "root".toList (some "P".toList)
+    [.node 1 "ownedLinks".toList (some "Link".toList) [], .node 2 "ownedX".toList (some "X".toList) []]
+
+theorem rawChildren_full_fails : ¬ rawChildren_full := by
+  intro h
+  have := h (fun k => k == 1) witnessTree (by unfold KeysNodup; decide) witnessTree
+    (by rw [subT_self]; exact List.mem_cons_self)
+  revert this
+  decide
+
+/-- Raw child reads agree exactly when none of the node's own children is a fragment root. -/
+theorem rawChildren_partial (cut : Key → Bool) (t : Tree) (h : KeysNodup t) (c : Tree) (hc : c ∈ subT t)
+    (hno : ∀ d ∈ c.kids, cut d.key = false) :
+    rawChildren (split cut t) c.key = rawChildren (mono t) c.key := by
+  rw [rawChildren_split cut t h c hc, mono, rawChildren_split (fun _ => false) t h c hc]
+  congr 2
+  apply List.filter_congr
+  intro d hd
+  simp [hno d hd]
+
+/-- the general form: a raw read sees exactly the children that were not cut -/
+theorem rawChildren_sees_uncut (cut : Key → Bool) (t : Tree) (h : KeysNodup t) (c : Tree) (hc : c ∈ subT t) :
+    rawChildren (split cut t) c.key = some ((c.kids.filter (fun d => !cut d.key)).map Tree.key) :=
+  rawChildren_split cut t h c hc
+
+/-! ## Tag-filtered `iterancestors` (a loader-level form the object API does not use)
+
+A fragment root's own tag is the class name, not the containment tag, so a tag filter that would
+match the element in the monolithic file does not match it as a fragment root. -/
+
+def ancestorsTagged_full : Prop :=
+  ∀ (cut : Key → Bool) (t : Tree), KeysNodup t → ∀ (f : Nat) (tags : List Str) (k : Key),
+    ancestorsTagged (split cut t) f tags k = ancestorsTagged (mono t) f tags k
+
+def witnessTree2 : Tree :=
+  .node 0 "root".toList (some "P".toList)
+    [.node 1 "ownedArchitectures".toList (some "la:LogicalArchitecture".toList)
+      [.node 2 "ownedFunctionPkg".toList (some "la:LogicalFunctionPkg".toList) []]]
+
+theorem ancestorsTagged_full_fails : ¬ ancestorsTagged_full := by
+  intro h
+  have := h (fun k => k == 1) witnessTree2 (by unfold KeysNodup; decide) 5 ["ownedArchitectures".toList] 2
+  revert this
+  decide
+
+/-! ## Non-vacuity -/
+
+def t0 : Tree := .node 0 "root".toList (some "P".toList)
+  [.node 1 "a".toList (some "A".toList)
+     [.node 2 "b".toList (some "B".toList) [.node 3 "c".toList none []],
+      .node 4 "b".toList (some "B".toList) []],
+   .node 5 "a".toList (some "A".toList) []]
+def cut0 : Key → Bool := fun k => k == 1 || k == 2
+
+example : KeysNodup t0 := by unfold KeysNodup; decide
+example : (split cut0 t0).frags.length = 2 := by decide
+example : ancestors (split cut0 t0) 10 3 = [2, 1, 0] := by decide
+example : (descendants (split cut0 t0) 20 [] 0).map (·.map (·.2.1)) = some [1, 2, 3, 4, 5] := by decide
+example : childrenXt (split cut0 t0) [some "B".toList] 1 = some [(2, some "B".toList), (4, some "B".toList)] := by
+  decide
+example : fileOf (split cut0 t0) 3 = some 2 ∧ fileOf (split cut0 t0) 4 = some 1 ∧ fileOf (split cut0 t0) 5 = some 0 := by
+  decide
+example : (3, 2) ∈ owners cut0 t0 := by decide
+example : fuelT t0 = 17 := by decide
+
 end Capella.Props.C06
